@@ -166,6 +166,9 @@ func main() {
 		case args[i] == "--tier" && i+1 < len(args):
 			tier = args[i+1]
 			i++
+		case args[i] == "dump":
+			dumpCmd(args[i+1:])
+			return
 		case args[i] == "explain" && i+1 < len(args):
 			data, err := os.ReadFile(args[i+1])
 			if err != nil {
